@@ -4360,9 +4360,13 @@ class DecAffine(Affine):
                                 left.multiplier, left.xtype)
             return DecPCvxConstr(constr, left.event_adapt)
         elif isinstance(left, ExpPiecewiseConvex):
+            if left.sign == -1:
+                raise ValueError('Nonconvex constraints.')
             pieces = [piece <= 0 for piece in left.pieces]
             return ExpPWConstr(left.model, pieces)
         elif isinstance(left, PiecewiseConvex):
+            if left.sign == -1:
+                raise ValueError('Nonconvex constraints.')
             pieces = [piece <= 0 for piece in left.pieces]
             return PWConstr(left.model, pieces)
 
@@ -4388,9 +4392,13 @@ class DecAffine(Affine):
                                 left.multiplier, left.xtype)
             return DecPCvxConstr(constr, left.event_adapt)
         elif isinstance(left, ExpPiecewiseConvex):
+            if left.sign == -1:
+                raise ValueError('Nonconvex constraints.')
             pieces = [piece <= 0 for piece in left.pieces]
             return ExpPWConstr(left.model, pieces)
         elif isinstance(left, PiecewiseConvex):
+            if left.sign == -1:
+                raise ValueError('Nonconvex constraints.')
             pieces = [piece <= 0 for piece in left.pieces]
             return PWConstr(left.model, pieces)
 
